@@ -116,13 +116,17 @@ def run(ctx):
     g_m8 = gen.go("m8", ctx.tlc, sS, "Gen_SctpStream.tla", "Gen_SctpStream_sim8.cfg", workers=2, timeout=900, count=False,
                   simulate="num=%d" % nsim, depth=41, deadlock=False, extra=["-seed", str(ctx.seed + 1000)])
     g_w = gen.go("w", ctx.tlc, sS, "Gen_SctpWrite.tla", "Gen_SctpWrite.cfg", workers=4, timeout=900, count=False)
+    # directed at the overshoot: long enough (7 driver actions) for fill - drain - refill - write through on the stale token
+    # (buffered > limit) - NEXT write, which must be held back
+    g_wo = gen.go("wo", ctx.tlc, sS, "Gen_SctpWrite.tla", "Gen_SctpWrite_over_thorough.cfg" if thorough else "Gen_SctpWrite_over.cfg",
+                  workers=4, timeout=900, count=False)
     g_h = gen.go("h", ctx.tlc, sS, "Gen_HbWatchdog.tla", "Gen_HbWatchdog_thorough.cfg" if thorough else "Gen_HbWatchdog.cfg",
                  workers=2, timeout=300, count=False)
     nscen = 1200 if thorough else 96
     g_l = gen.go("l", ctx.tlc, sL, "Gen_DtlsListener.tla", "Gen_DtlsListener_sim.cfg", workers=2, timeout=900, count=False,
                  simulate="num=%d" % (nscen * 6), depth=70, deadlock=False, extra=["-seed", str(ctx.seed)])
     gen.join()
-    for b in (g_s2, g_s3, g_m5, g_m8, g_w, g_h, g_l):
+    for b in (g_s2, g_s3, g_m5, g_m8, g_w, g_wo, g_h, g_l):
         if b["r"]["inv"]:
             raise vlib.InfraError("generator %s failed: %s" % (b["name"], b["r"]["out"][-1500:]))
 
@@ -192,6 +196,14 @@ def run(ctx):
     capw = None if thorough else 20000
     modw = 1 if thorough else 3
     nw = dedup([g_w["r"]["beh_file"]], pathw, cap=capw, pick=lambda h: (h[0] + ctx.seed) % modw == 0)
+    nover = 0
+    with open(pathw, "a") as fo:
+        for line in open(g_wo["r"]["beh_file"]):
+            fo.write(line if line.endswith("\n") else line + "\n")
+            nw += 1
+            nover += 1 if any(x.get("st", {}).get("amt", 0) > 4 for x in json.loads(line)) else 0
+    if nover < 50:
+        raise vlib.InfraError("the directed write behaviours never overshoot the limit (%d)" % nover)
     if nw < 5000:
         raise vlib.InfraError("too few write behaviours: %d" % nw)
     outw = os.path.join(ctx.scratch, "write_replay.ndjson")
